@@ -94,11 +94,11 @@ func checkC18(c *Ctx, r *Result, tier string) {
 			if !ok || bo.Op != token.ADD {
 				return
 			}
-			if k, isC := constInt(bo.Y); !isC || k != 1 {
-				return
-			}
+			// line + 1, and any other increment of a line-class variable (line += count)
 			if !inClass(bo.X, fLine, map[ssa.Value]bool{}) {
-				return
+				if !inClass(bo.Y, fLine, map[ssa.Value]bool{}) {
+					return
+				}
 			}
 			// is this an advance (stored back / feeding a phi), not the `line + 1` of an emitter?
 			advance := false
@@ -252,6 +252,87 @@ func checkC18(c *Ctx, r *Result, tier string) {
 		})
 	}
 	r.Floor("R18d", nScan, 2)
+
+	// ---- R18f: the separation test looks at the statement parsed last ------------------------------
+	// hasMoreStatements(p, current) compares the line of `current` with the line of the next token.
+	// In a statement loop `current` has to be the statement the loop parsed last: the loop-carried
+	// result of p.run, not a value fixed before the loop.
+	hms := c.Func("parser", "hasMoreStatements")
+	runM := c.Method("parser", "parser", "run")
+	if hms == nil || runM == nil {
+		r.Undecide("R18f: parser.hasMoreStatements / (*parser).run not found")
+	} else {
+		nSep := 0
+		for _, fn := range lexFuncs {
+			key := c.FuncKey(fn)
+			ord := newOrdinals()
+			allInstrs(fn, func(in ssa.Instruction) {
+				call, ok := in.(*ssa.Call)
+				if !ok || call.Call.StaticCallee() != hms || !inLoop(in.Block()) || len(call.Call.Args) < 2 {
+					return
+				}
+				// a run() call in the same loop
+				scc := sccOf(in.Block())
+				var runs []ssa.Value
+				for b := range scc {
+					for _, x := range b.Instrs {
+						if rc, ok := x.(*ssa.Call); ok && rc.Call.StaticCallee() == runM {
+							if e := errValueOf(rc, 0); e != nil {
+								runs = append(runs, e)
+							}
+							for _, ref := range *rc.Referrers() {
+								if ex, ok := ref.(*ssa.Extract); ok && ex.Index == 0 {
+									runs = append(runs, ex)
+								}
+							}
+						}
+					}
+				}
+				if len(runs) == 0 {
+					return
+				}
+				nSep++
+				site := ord.key(key, "separation", "")
+				pos := c.Pos(c.InstrPos(in))
+				arg := call.Call.Args[1]
+				carried := false
+				seen := map[ssa.Value]bool{}
+				var walk func(v ssa.Value, d int)
+				walk = func(v ssa.Value, d int) {
+					if v == nil || seen[v] || d > 10 {
+						return
+					}
+					seen[v] = true
+					for _, rv := range runs {
+						if v == rv {
+							carried = true
+						}
+					}
+					switch x := v.(type) {
+					case *ssa.Phi:
+						for _, e := range x.Edges {
+							walk(e, d+1)
+						}
+					case *ssa.UnOp:
+						if a, ok := x.X.(*ssa.Alloc); ok {
+							for _, s := range cellSources(a) {
+								walk(s, d+1)
+							}
+						}
+					}
+				}
+				walk(arg, 0)
+				if carried {
+					r.Instance("R18f", site, pos, "ok", "the statement handed to the separation test is the one the loop parsed last", true)
+					return
+				}
+				r.Instance("R18f", site, pos, "finding", "separation test on a statement fixed before the loop", true)
+				r.Report(Finding{Rule: "R18f", Site: site, Pos: pos,
+					Msg: key + ": the statement loop decides whether another statement follows by comparing the next token's line with " + accessPath(arg) + ", which is not updated by the loop (the result of p.run in the loop never reaches it): separation is decided against the first statement's line — two statements on one later line are accepted without a semicolon"})
+			})
+		}
+		r.Floor("R18f", nSep, 2)
+	}
 
 	// ---- R18e: the parser separates statements by token lines, not by layout counters ------------
 	// PrefixNewlines is counted by the white-space skipper only; the comment lexers consume line
